@@ -43,18 +43,49 @@ pub fn build_del_case_filler(sec: usize, n: usize, mask: u32, opt_pos: usize, de
 /// `others`: number of records in the sections that are not walked (index 0 = answer ...).
 #[allow(clippy::too_many_arguments)]
 pub fn build_del_case_full(sec: usize, n: usize, mask: u32, opt_pos: usize, delete_opt: bool, incl_opt: bool, compressed: bool, layout_seed: &[u8], filler: usize, others: [usize; 3]) -> DelCase {
+    build_del_case_shaped(sec, n, mask, opt_pos, delete_opt, incl_opt, compressed, layout_seed, filler, others, 0)
+}
+
+/// `shape`: 0 = everyday names; 1 = smallest legal records (root question, root and one-label owners,
+/// empty data: a 5-byte question, 11-byte records); 2 = largest names (255 bytes on the wire, 63-byte
+/// labels); 3 = labels with bytes >= 0x80, blanks and `@`.
+#[allow(clippy::too_many_arguments)]
+pub fn build_del_case_shaped(sec: usize, n: usize, mask: u32, opt_pos: usize, delete_opt: bool, incl_opt: bool, compressed: bool, layout_seed: &[u8], filler: usize, others: [usize; 3], shape: usize) -> DelCase {
     use crate::enc::{encode, Layout};
-    let names = ["example.com", "www.example.com", "a.b.example.com", "example.org", "mail.example.com", "x.org"];
+    let long = |first: &[u8]| -> Name {
+        // first label + 63-byte labels, 255 bytes on the wire
+        let mut ls: Vec<Vec<u8>> = vec![first.to_vec()];
+        let mut left = 255 - 1 - (first.len() + 1);
+        while left > 0 {
+            let l = if left >= 64 { 63 } else { left - 1 };
+            ls.push(vec![b'l'; l]);
+            left -= l + 1;
+        }
+        Name(ls)
+    };
+    let names: Vec<Name> = match shape {
+        1 => vec![Name::root(), Name(vec![b"a".to_vec()]), Name::root(), Name(vec![b"b".to_vec(), b"a".to_vec()]), Name::root(), Name(vec![b"a".to_vec()])],
+        2 => vec![long(b"example"), long(b"www"), long(b"a-b"), long(b"example"), long(b"mail"), long(b"x")],
+        3 => vec![
+            Name(vec![b"caf\xc3\xa9".to_vec(), b"example".to_vec()]),
+            Name(vec![vec![0xc9, 0xe9, 0x80, 0xff], b"caf\xc3\xa9".to_vec(), b"example".to_vec()]),
+            Name(vec![b"a b".to_vec(), b"a@b".to_vec(), b"example".to_vec()]),
+            Name(vec![b"a`b".to_vec(), b"example".to_vec()]),
+            Name(vec![vec![0xe9, 0xc9, 0x80, 0xff], b"caf\xc3\xa9".to_vec(), b"example".to_vec()]),
+            Name(vec![vec![0xff]]),
+        ],
+        _ => ["example.com", "www.example.com", "a.b.example.com", "example.org", "mail.example.com", "x.org"].iter().map(|s| Name::from_dotted(s)).collect(),
+    };
     let mk = |i: usize, ttl: u32| -> Record {
-        let owner = Name::from_dotted(names[i % names.len()]);
+        let owner = names[i % names.len()].clone();
         match i % 4 {
             0 => Record { owner, rtype: T_A, class: 1, ttl, rdata: Rdata::A([10, 0, 0, i as u8]) },
-            1 => Record { owner, rtype: T_NS, class: 1, ttl, rdata: Rdata::Name1(Name::from_dotted(names[(i + 2) % names.len()])) },
-            2 => Record { owner, rtype: T_MX, class: 1, ttl, rdata: Rdata::Mx(i as u16, Name::from_dotted(names[(i + 1) % names.len()])) },
-            _ => Record { owner, rtype: T_TXT, class: 1, ttl, rdata: Rdata::Opaque(vec![3, b'a', 0xc0, 0x0c]) },
+            1 => Record { owner, rtype: T_NS, class: 1, ttl, rdata: Rdata::Name1(names[(i + 2) % names.len()].clone()) },
+            2 => Record { owner, rtype: T_MX, class: 1, ttl, rdata: Rdata::Mx(i as u16, names[(i + 1) % names.len()].clone()) },
+            _ => Record { owner, rtype: T_TXT, class: 1, ttl, rdata: Rdata::Opaque(if shape == 1 { vec![] } else { vec![3, b'a', 0xc0, 0x0c] }) },
         }
     };
-    let mut m = Message { id: 0x1111, flags: 0x8180, qd: vec![Question { name: Name::from_dotted("example.com"), qtype: 255, qclass: 1 }], ..Default::default() };
+    let mut m = Message { id: 0x1111, flags: 0x8180, qd: vec![Question { name: names[0].clone(), qtype: 255, qclass: 1 }], ..Default::default() };
     // the walked section gets n records with TTL 1000+i; the other sections two records each
     for s in 1..=3 {
         let cnt = if s == sec { n } else { others[s - 1] };
@@ -85,7 +116,7 @@ pub fn build_del_case_full(sec: usize, n: usize, mask: u32, opt_pos: usize, dele
     };
     let delete: Vec<u32> = (0..n).filter(|i| mask & (1 << i) != 0).map(|i| 1000 + i as u32).collect();
     let delete_opt = delete_opt && opt_pos > 0 && incl_opt && sec == 3;
-    let desc = format!("sec={} n={} delete={:?} opt_pos={} delete_opt={} incl_opt={} compressed={} filler={} others={:?}", sec, n, delete, opt_pos, delete_opt, incl_opt, compressed, filler, others);
+    let desc = format!("sec={} n={} delete={:?} opt_pos={} delete_opt={} incl_opt={} compressed={} filler={} others={:?} shape={}", sec, n, delete, opt_pos, delete_opt, incl_opt, compressed, filler, others, shape);
     DelCase { question_deleted_first: false, prehistory: false, msg: m, bytes, sec, incl_opt, delete, delete_opt, desc }
 }
 
@@ -100,10 +131,13 @@ pub fn c11_oracle(c: &DelCase, st: &mut Stats) -> PResult {
     let sec = c.sec;
     if c.prehistory {
         let r = catch(|| -> Result<(), String> {
-            let qn = Name::from_dotted("example.com").to_wire();
+            // same name again: decompresses in place, changes nothing else
+            let qname = c.msg.qd[0].name.clone();
+            let qn = qname.to_wire();
+            let rn = if qname.is_root() { Name::from_dotted("absent.invalid").to_wire() } else { qn.clone() };
             let mut q = pp.into_iter_question().ok_or("no question")?;
             q.set_raw_name(&qn).map_err(|e| e.to_string())?;
-            pp.rename_with_raw_names(&qn, &qn, true).map_err(|e| e.to_string())
+            pp.rename_with_raw_names(&rn, &rn, true).map_err(|e| e.to_string())
         });
         match r {
             Err(pm) => fail!(format!("C11 prehistory-panic {}", panic_sig(&pm)), "{} {}", pm, ctxs()),
@@ -349,7 +383,9 @@ fn c11_case(data: &[u8], st: &mut Stats) -> PResult {
     // neighbour sections of 0..2 records (an empty section between two non-empty ones is a special case of the bookkeeping)
     let others = if src.chance(128) { [src.below(3), src.below(3), src.below(3)] } else { [2, 2, 2] };
     let others = if sec == 0 && others[0] == 0 { [1, others[1], others[2]] } else { others };
-    let mut c = build_del_case_full(sec, n, mask, opt_pos, delete_opt, incl_opt, compressed, &seed, filler, others);
+    let shape = src.weighted(&[10, 3, 2, 2]);
+    st.class(&format!("name-shape:{}", shape));
+    let mut c = build_del_case_shaped(sec, n, mask, opt_pos, delete_opt, incl_opt, compressed, &seed, filler, others, shape);
     c.prehistory = filler == 0 && src.chance(if sec == 0 { 128 } else { 50 });
     c.question_deleted_first = sec != 0 && !c.prehistory && src.chance(40);
     if others.iter().any(|&x| x == 0) {
@@ -379,7 +415,7 @@ pub fn replay_c11(data: &[u8]) -> PResult {
 pub fn check_c11(ctx: &Ctx, known: &KnownFindings) -> Report {
     let mut rep = Report::new("C11");
     let ks = known_sigs(known, "C11");
-    rep.rule = "walks over the question, answer, authority and additional sections (n = 0..12 records identified by unique TTLs; OPT absent/first/middle/last; compressed or literal; next() and next_including_opt()) deleting a chosen subset from within the walk. Exhaustive part: every subset of every section size n <= 5 (quick) / n <= 7 (thorough) x section x OPT position x layout x three neighbour-section shapes (2/2/2, 0/0/1, 1/0/0 records); random part: n up to 12 with forced classes (none, all, first, last, adjacent). Oracle: walk ends within (n+1)(n+3)+4 yields; each delete removes exactly the record under the cursor (decoded before/after), lowers only that count, second delete = VoidRecord and changes nothing; no deleted record yielded again; every survivor yielded; final section = survivors in order; emptied section reads as absent; final C08 view. Non-trivial: n >= 2 and >= 1 deletion.".into();
+    rep.rule = "walks over the question, answer, authority and additional sections (n = 0..12 records identified by unique TTLs; OPT absent/first/middle/last; compressed or literal; next() and next_including_opt()) deleting a chosen subset from within the walk. Name shapes: everyday, smallest legal records (root question and owners, empty data), 255-byte names, labels with bytes >= 0x80. Exhaustive part: every subset of every section size n <= 5 (quick) / n <= 7 (thorough) x section x OPT position x layout x three neighbour-section shapes (2/2/2, 0/0/1, 1/0/0 records); random part: n up to 12 with forced classes (none, all, first, last, adjacent). Oracle: walk ends within (n+1)(n+3)+4 yields; each delete removes exactly the record under the cursor (decoded before/after), lowers only that count, second delete = VoidRecord and changes nothing; no deleted record yielded again; every survivor yielded; final section = survivors in order; emptied section reads as absent; final C08 view. Non-trivial: n >= 2 and >= 1 deletion.".into();
     rep.assumptions = vec!["records of the walked section carry unique TTLs assigned at generation time (identification without touching the packet)".into()];
     // exhaustive subsets
     let nmax = match ctx.tier {
@@ -428,11 +464,43 @@ pub fn check_c11(ctx: &Ctx, known: &KnownFindings) -> Report {
     // the question
     for del in [0u32, 1] {
         for compressed in [false, true] {
-            let c = build_del_case(0, 1, del, 1, false, false, compressed, &seed);
-            let mut st = Stats::default();
-            let r = catch(|| c11_oracle(&c, &mut st));
-            rep.direct(&c.desc, r, &ks);
-            enumerated += 1;
+            for shape in 0..4 {
+                for others in [[2usize, 2, 2], [0, 0, 0], [0, 0, 1]] {
+                    let c = build_del_case_shaped(0, 1, del, 1, false, false, compressed, &seed, 0, others, shape);
+                    let mut st = Stats::default();
+                    let r = catch(|| c11_oracle(&c, &mut st));
+                    rep.direct(&c.desc, r, &ks);
+                    enumerated += 1;
+                }
+            }
+        }
+    }
+    // smallest and largest records: every subset for n <= 4
+    'shapes: for shape in 1..4usize {
+        for sec in 1..=3usize {
+            for n in 0..=4usize {
+                for mask in 0..(1u32 << n) {
+                    for opt_pos in [0usize, 2] {
+                        for compressed in [false, true] {
+                            let c = build_del_case_shaped(sec, n, mask, opt_pos, false, false, compressed, &seed, 0, [1, 1, 1], shape);
+                            enumerated += 1;
+                            let mut st = Stats::default();
+                            let r = catch(|| c11_oracle(&c, &mut st));
+                            if !matches!(r, Ok(Ok(()))) {
+                                rep.direct(&c.desc, r, &ks);
+                                if rep.founds.len() >= 4 {
+                                    break 'shapes;
+                                }
+                            } else {
+                                rep.stats.evals += 1;
+                                if n >= 2 && mask != 0 {
+                                    rep.stats.nontrivial(&c.desc);
+                                }
+                            }
+                        }
+                    }
+                }
+            }
         }
     }
     rep.stats.class_n("exhaustive-subsets", enumerated);
@@ -442,7 +510,7 @@ pub fn check_c11(ctx: &Ctx, known: &KnownFindings) -> Report {
     rep.absorb(r);
     rep.require(&[
         "section:0", "section:1", "section:2", "section:3", "delete:none", "delete:all", "delete:some", "delete:adjacent", "delete:first", "delete:last", "delete:opt", "emptied-section",
-        "layout:compressed", "layout:literal", "exhaustive-subsets", "around-offset-16384", "prehistory:decompress-then-rename", "prehistory:question-cache-warm", "question-deleted-before-the-walk", "empty-neighbour-section",
+        "layout:compressed", "layout:literal", "exhaustive-subsets", "around-offset-16384", "prehistory:decompress-then-rename", "prehistory:question-cache-warm", "question-deleted-before-the-walk", "empty-neighbour-section", "name-shape:1", "name-shape:2", "name-shape:3",
     ]);
     rep
 }
